@@ -6,7 +6,7 @@ import "fmt"
 // repository's own fixture corpus (not a MANIFEST check; used while growing
 // the specification and inside several checks as a regression corpus).
 func Fixtures(r *Run) {
-	sessions, names := fixtureSessions("/repo")
+	sessions, names := fixtureSessions(RepoDir())
 	r.UndefLimit = 1
 	res, answered := r.ValidateWithCodecs("FIX", sessions)
 	fmt.Printf("codec values supplied by the environment: %d\n", answered)
